@@ -652,9 +652,7 @@ def r10_file_streams(facts):
                 if ap and strip(ap[0]).get('k') == 'MemberExpr' and any('callee' in y and short(callee_name(y)) == 'fopen' for y in walk(ap[1])):
                     members.add(strip(ap[0])['n'])
     if not members:
-        if facts.view in ('noVGM',):
-            return out
-        raise build.AnalysisBroken('C03.R10: no FILE* member assigned from fopen found (expected VGMFileDumper::m_output)')
+        raise build.AnalysisBroken('C03.R10: no FILE* member assigned from fopen found (expected VGMFileDumper::m_output, FileAndMemReader::m_fp)')
     n = 0
     for fn in facts.all_fns():
         if not fn.relfile().startswith('src/') or fn.tree is None:
@@ -679,7 +677,7 @@ def r10_file_streams(facts):
                 out.append(Obl('C03.R10', fn.name, '%s(.. %s ..)' % (cn, short(hit['n'])), st['loc'], 'discharged' if ok else 'finding',
                                why='dominated by a test of %s' % short(hit['n']) if ok else
                                '%s is NULL when the output file cannot be created (fopen failed; the assert is compiled out): %s() on a NULL stream crashes inside opn2_switchEmulator / opn2_close' % (short(hit['n']), cn)))
-    if n < 10:
+    if n < (5 if facts.view == 'noVGM' else 10):     # without the dumper only the stream of FileAndMemReader is left
         raise build.AnalysisBroken('C03.R10: only %d stdio calls on FILE* members found' % n)
     return out
 
